@@ -195,5 +195,8 @@ PROPS['C15'] = {
     'assumptions': [],
 }
 
+# functions whose Verus contract is also decided, completely, by a Kani harness family on the real function
+TWINS = {'Core::handle_interrupt': ('misc:irq', 'C07')}   # (Kani group, the property its checks are labelled with)
+
 HOOK_COMMITS = ['e7167ea', '094daf3', 'ddd33be', 'b06d137']
 NOT_APPLICABLE = {}
